@@ -3,6 +3,7 @@ package main
 
 import (
 	"fmt"
+	"io"
 	"strings"
 
 	"github.com/gobwas/ws"
@@ -103,9 +104,35 @@ func reset(w *wsutil.Writer, cfg Config, dst *xport.Rec) (model *wops.Model, ok 
 			panic(p)
 		}
 	}()
-	w.Reset(dst, stateOf(cfg), ws.OpCode(cfg.Op))
+	w.Reset(dest(cfg, dst), stateOf(cfg), ws.OpCode(cfg.Op))
 	rsv := configure(w, cfg)
 	return wops.NewModel(dst, cfg.Side == ref.SideClient, cfg.Op, cfg.NoFlush, rsv), true
+}
+
+// richDst is the recording destination behind the optional interfaces a
+// destination may have (a *net.TCPConn has ReadFrom, a *bufio.Writer has
+// WriteString and ReadFrom too): whichever the writer picks, every call must
+// hand over whole frames.
+type richDst struct{ rec *xport.Rec }
+
+func (d richDst) Write(p []byte) (int, error)       { return d.rec.Write(p) }
+func (d richDst) WriteString(s string) (int, error) { return d.rec.Write([]byte(s)) }
+func (d richDst) ReadFrom(r io.Reader) (int64, error) {
+	b, err := io.ReadAll(r)
+	if len(b) > 0 {
+		if _, werr := d.rec.Write(b); werr != nil {
+			return 0, werr
+		}
+	}
+	return int64(len(b)), err
+}
+
+// dest picks the kind of destination for a configuration.
+func dest(cfg Config, rec *xport.Rec) io.Writer {
+	if (cfg.N+int(cfg.Side)+cfg.Ext)%3 == 1 {
+		return richDst{rec}
+	}
+	return rec
 }
 
 // build constructs the writer; ok=false when the constructor legitimately
@@ -124,15 +151,15 @@ func build(cfg Config, dst *xport.Rec) (w *wsutil.Writer, model *wops.Model, ok 
 	}()
 	switch cfg.Ctor {
 	case "NewWriter":
-		w = wsutil.NewWriter(dst, st, op)
+		w = wsutil.NewWriter(dest(cfg, dst), st, op)
 	case "NewWriterSize":
-		w = wsutil.NewWriterSize(dst, st, op, cfg.N)
+		w = wsutil.NewWriterSize(dest(cfg, dst), st, op, cfg.N)
 	case "NewWriterBufferSize":
-		w = wsutil.NewWriterBufferSize(dst, st, op, cfg.N)
+		w = wsutil.NewWriterBufferSize(dest(cfg, dst), st, op, cfg.N)
 	case "NewWriterBuffer":
-		w = wsutil.NewWriterBuffer(dst, st, op, make([]byte, cfg.N))
+		w = wsutil.NewWriterBuffer(dest(cfg, dst), st, op, make([]byte, cfg.N))
 	case "GetWriter":
-		w = wsutil.GetWriter(dst, st, op, cfg.N)
+		w = wsutil.GetWriter(dest(cfg, dst), st, op, cfg.N)
 	}
 	rsv := configure(w, cfg)
 	return w, wops.NewModel(dst, cfg.Side == ref.SideClient, cfg.Op, cfg.NoFlush, rsv), true
